@@ -5,7 +5,7 @@ import PrefVerif.Lemmas.C19xReal
 namespace PrefVerif.C19x
 open PrefVerif PrefVerif.Euclid PrefVerif.Spec
 
-/-- the first stored voter `v1` sits at `u`, the last one `vn` at `w`, and `u < w` -/
+/-- one end `v1` of the arrangement found by the pre-check sits at `u`, the other end `vn` at `w`, and `u < w` -/
 structure Geo (alts : List Nat) (x : Nat → Rat) (v1 vn : List Nat) (u w : Rat) : Prop where
   ne : alts ≠ []
   p1 : v1.Perm alts
@@ -255,13 +255,14 @@ end
 
 theorem stage_coloured (alts : List Nat) (orders : List (List Nat)) (v1 vn : List Nat) (g : Colouring)
     (hsc : (SingleCrossing.isSC orders alts.length).1 = true)
-    (hh : orders.head? = some v1) (hl : orders.getLast? = some vn)
+    (hh : (scOrders alts orders).head? = some v1) (hl : (scOrders alts orders).getLast? = some vn)
     (hg : colourPairs v1 vn (orderedPairs alts) (initColouring alts v1 vn (v1.headD 0) (vn.headD 0)) = some g) :
     (stage alts orders).coloured = some g := by
   unfold stage
-  revert hsc
+  revert hsc hh hl
+  generalize scOrders alts orders = s
   rcases SingleCrossing.isSC orders alts.length with ⟨isSc, w⟩
-  intro hsc
+  intro hsc hh hl
   simp only at hsc
   subst hsc
   simp only [Bool.not_true, Bool.false_eq_true, if_false, hh, hl, hg]
